@@ -3,7 +3,6 @@
 // page-size mismatch refused), C10-Ob4 / C06-Ob3 (open reloads the free list and writes nothing),
 // C16-Ob4 (alignment for every page size the builder accepts), C02 (header selection = newest valid).
 use super::*;
-use fnv;
 use jv_env::fs::{OP_ALLOCATE, OP_FLUSH, OP_SYNC, OP_WRITE};
 
 pub(crate) const PS: u64 = 256;
@@ -84,7 +83,7 @@ pub(crate) fn mk_dbinner(npages: usize, flags: DBFlags) -> DBInner {
 #[kani::proof]
 #[kani::unwind(9)]
 fn db_meta_picks_newer() {
-    fnv::jv_set_cheap(true); // symbolic headers: two checksum computations are compared (see env/fnv)
+    crate::jv_top_stubs::hash_cheap(true); // symbolic headers: two checksum computations are compared (see env/fnv)
     let t0: u64 = kani::any();
     let t1: u64 = kani::any();
     kani::assume(t0 != t1);
@@ -221,7 +220,7 @@ fn db_meta_damage_type_byte_slot0() {
 #[kani::proof]
 #[kani::unwind(9)]
 fn db_meta_pagesize_mismatch_refused() {
-    fnv::jv_set_cheap(true);
+    crate::jv_top_stubs::hash_cheap(true);
     let ps: u64 = kani::any();
     kani::assume(ps != PS);
     let t0: u64 = kani::any();
@@ -243,7 +242,7 @@ fn db_meta_pagesize_mismatch_refused() {
 #[kani::proof]
 #[kani::unwind(9)]
 fn db_open_reloads_freelist() {
-    fnv::jv_set_cheap(true);
+    crate::jv_top_stubs::hash_cheap(true);
     let t0: u64 = kani::any();
     let t1: u64 = kani::any();
     kani::assume(t0 != t1);
